@@ -7,6 +7,7 @@ import subprocess
 from ..runner import VERIF
 
 LEVEL = "proof"
+CONFIG_HANDLED = True   # the rule compares the other feature configurations itself (thorough tier)
 RULE_TEXT = ("table comparison, exhaustive: (a) every const-evaluated abi::* constant vs glibc <elf.h> and LLVM-14 "
              "BinaryFormat values of the same name; (b) rustc layout_of of every #[repr(C)] struct vs gABI layout table; "
              "(c) every arm of every *_to_str match table: literal == identifier of the constant the pattern resolves to; "
@@ -244,7 +245,7 @@ def thorough(ctx, rep):
     base = {t["name"]: t["arms"] for t in ctx.facts()["match_tables"] if t["module"] == "to_str"}
     for feats in (("to_str",), ("alloc", "to_str")):
         other = {t["name"]: t["arms"] for t in ctx.facts(feats)["match_tables"] if t["module"] == "to_str"}
-        same = all(_strip(base[k]) == _strip(other[k]) for k in other if k in base)
+        same = all(_strip(base[k]) == _strip(other[k]) for k in other if k in base and k.endswith("_to_str"))
         rep.require(same, "config", "to_str tables identical under features %s" % "+".join(feats), "-", "identical",
                     "to_str tables differ between feature configurations")
     for feats in ((), ("alloc",)):
@@ -256,4 +257,4 @@ def thorough(ctx, rep):
 
 
 def _strip(arms):
-    return [{k: v for k, v in a.items() if k != "span"} for a in arms]
+    return [{k: v for k, v in a.items() if k in ("pat", "const", "const_name", "val", "value", "guard", "negated")} for a in arms]
